@@ -22,6 +22,6 @@ def run(tier, seed, replay=None):
             CC.corner_stream(ck)
         if replay is not None and replay.get('case', {}).get('obs') in ('named', 'gclass', 'corner'):
             cases.clear()
-    return CC.run('C08', tier, seed, replay, PROPS, judge, extra_streams=extra,
+    return CC.run('C08', tier, seed, replay, PROPS, judge, extra_streams=extra, extra_units=['Pedantic'],
                   rule_extra='; zoo: every public name of typing / collections.abc, bare and subscripted, non-types, strings, TypeVars, '
                              'NamedTuple/TypedDict/Protocol ... x 78 values (namedtuples, objects with raising _asdict, generators, classes, modules)')
